@@ -228,6 +228,38 @@ func c13Core(run *mon.Run) {
 	}()
 	wg.Wait()
 	c13KMAC(run)
+	// constructors, one-shot helpers and fresh hasher objects as pure functions under parallel use
+	{
+		r := run.Rand("parallel")
+		var table []func() []byte
+		for i := 0; i < 10; i++ {
+			msg := mon.RandBytes(r, []int{0, 1, 103, 104, 105, 135, 136, 137, 300, 1000}[i])
+			table = append(table,
+				func() []byte { var o [32]byte; hash.ComputeSHA3_256(&o, msg); return o[:] },
+				func() []byte { var o [32]byte; hash.ComputeSHA2_256(&o, msg); return o[:] },
+				func() []byte { return hash.NewSHA3_384().ComputeHash(msg) },
+				func() []byte { return hash.NewSHA2_384().ComputeHash(msg) },
+				func() []byte { return hash.NewKeccak_256().ComputeHash(msg) },
+				func() []byte { h := hash.NewSHA3_256(); _, _ = h.Write(msg[:len(msg)/2]); _, _ = h.Write(msg[len(msg)/2:]); return h.SumHash() },
+			)
+			key, cust := mon.RandBytes(r, 16+i*17), mon.RandBytes(r, i)
+			size := []int{32, 128, 1, 200}[i%4]
+			table = append(table, func() []byte {
+				h, err := hash.NewKMAC_128(key, cust, size)
+				if err != nil {
+					return []byte("error:" + err.Error())
+				}
+				return h.ComputeHash(msg)
+			})
+		}
+		calls, diff := parallelReplay(table, run.Pick(3000, 50000), uint64(run.Seed))
+		run.Eval(int(calls))
+		run.Count("parallel-replay.calls", int(calls))
+		if diff != "" {
+			run.Violate("C13:parallel-use-differs", "hasher constructors and one-shot helpers from 16 goroutines at once (separate objects): "+diff, nil)
+		}
+		run.Shape("parallel-replay")
+	}
 	for _, a := range hashAlgs {
 		run.Require(run.SetLen("lengths."+a.name) == 4*a.rate+1, "not every length 0..4*rate hashed for "+a.name)
 		run.Require(run.Counter("two-split-lengths."+a.name) == int64(2*a.rate+3), "2-split table incomplete for "+a.name)
